@@ -803,8 +803,9 @@ class Exec:
                 raise PyRaise("ZeroDivisionError")
             except (TypeError, ValueError) as e:
                 raise PyRaise(type(e).__name__)
-        if isinstance(l, (set, frozenset)) and isinstance(r, (set, frozenset)):
-            return _PYOPS[type(op)](l, r)
+        _KEYS = type({}.keys())
+        if isinstance(l, (set, frozenset, _KEYS)) and isinstance(r, (set, frozenset, _KEYS)):
+            return _PYOPS[type(op)](set(l), set(r))
         if isinstance(op, ast.Add) and (
             (is_z3(l) and z3.is_string(l)) or (is_z3(r) and z3.is_string(r))
         ):
@@ -1027,6 +1028,8 @@ class Exec:
             return list(it) if not isinstance(it, (set, frozenset)) else sorted(it, key=repr)
         if isinstance(it, dict):
             return list(it.keys())
+        if isinstance(it, type({}.keys())):
+            return list(it)
         if isinstance(it, range):
             return list(it)
         if isinstance(it, str):
